@@ -521,6 +521,131 @@ def run_weights(case, seed, R):
 
 
 # ---------------------------------------------------------------------------------------------
+# band-edge VALUES: exactly 0 in several forms, flow == fhigh, on a frequency bin, at / above the data limit, None
+
+def edge_alphabet(r, mids, rad_bins):
+    """records (name, kind, fval, farg, parg, lo_ok, hi_ok); 'skip' = this interface cannot express the edge."""
+    rmax = float(r.max())
+    m = len(mids)
+    E = [('int0', 'zero', 0.0, 0, 'skip', True, True),
+         ('0.0', 'zero', 0.0, 0.0, float('inf'), True, True),
+         ('np.float64(0)', 'zero', 0.0, np.float64(0), np.float64('inf'), True, True),
+         ('None(low)', 'none', 0.0, None, None, True, False)]
+    for nm, v in (('bin:first', rad_bins[0]), ('bin:middle', rad_bins[1]), ('bin:axis-end', rad_bins[2])):
+        E.append((nm, 'bin', float(v), float(v), 1.0 / float(v), True, True))
+    for nm, v in (('mid:first', mids[0]), ('mid:middle', mids[m // 2])):
+        E.append((nm, 'mid', float(v), float(v), 1.0 / float(v), True, True))
+    E.append(('r.max()', 'limit', rmax, rmax, 1.0 / rmax, True, True))
+    E.append(('1.5*r.max()', 'above', 1.5 * rmax, 1.5 * rmax, 1.0 / (1.5 * rmax), True, True))
+    E.append(('1e9', 'above', 1e9, 1e9, 1e-9, True, True))
+    E.append(('inf', 'above', float('inf'), float('inf'), 'skip', True, True))
+    E.append(('None(high)', 'none', float('inf'), None, None, False, True))
+    return E
+
+
+def run_edge_values(case, seed, R):
+    n0, n1, dx, wname = case['n0'], case['n1'], case['dx'], case['window']
+    try:
+        h = dense((n0, n1), seed, salt=61, complex_=False) + 1.0      # non-zero mean: the DC sample carries weight
+        _, cands = window_choice(wname, h, dx)
+        w = cands[0][1]
+        S2 = float((w ** 2).sum())
+        P = ref_psd(h * w, dx) / S2
+        r, cls, mids = radial_classes(n0, n1, dx)
+        cell = P / (n0 * n1 * dx * dx)
+        ring = ring_mask(n0, n1)
+        MS = float(cell.sum())
+        tol = K * EPS * MS
+        m = len(mids)
+        # bins taken from the r array itself, so an edge "on a bin" is bit-identical to at least one sample
+        first = float(r[cls == 1].min())
+        middle = float(r[cls == max(1, m // 2)].min())
+        axis_end = float(min(r[0, n1 // 2], r[n0 // 2, 0]))
+        E = edge_alphabet(r, mids, (first, middle, axis_end))
+
+        def sums(lo, hi):
+            """(open-band sum, closed-band sum, ring weight of the closed band); a sample within 4 eps of an edge is 'on' it."""
+            on_lo = np.abs(r - lo) <= 4 * EPS * lo if np.isfinite(lo) else np.zeros(r.shape, bool)
+            on_hi = np.abs(r - hi) <= 4 * EPS * hi if np.isfinite(hi) else np.zeros(r.shape, bool)
+            closed = ((r >= lo) | on_lo) & ((r <= hi) | on_hi)
+            opened = closed & ~on_lo & ~on_hi
+            return float(cell[opened].sum()), float(cell[closed].sum()), float((cell * ring)[closed].sum())
+
+        def tie_weight(b):
+            return float(cell[np.abs(r - b) <= 4 * EPS * b].sum()) if np.isfinite(b) else 0.0
+
+        itf = Interferogram(h.copy(), dx)
+        pm = R.call(itf.psd)
+        pr = pd = None
+        if pm is not FAILED:
+            try:
+                pr, pd = np.asarray(pm.r), np.asarray(pm.data)
+            except Exception:   # noqa
+                pr = pd = None
+        for iface in ('frequency', 'period'):
+            V = {}
+            for i, lo in enumerate(E):
+                for j, hi in enumerate(E):
+                    if not (lo[5] and hi[6]) or lo[2] > hi[2]:
+                        continue
+                    if iface == 'frequency':
+                        kw = {'flow': lo[3], 'fhigh': hi[3]}
+                    else:
+                        if isinstance(lo[4], str) or isinstance(hi[4], str):     # this interface cannot express the edge
+                            continue
+                        kw = {'wllow': hi[4], 'wlhigh': lo[4]}
+                    if all(v is None for v in kw.values()):
+                        continue          # documented ValueError: nothing specified
+                    what = f'bandlimited_rms({n0}x{n1}, dx={dx}, window={wname}; {iface}: low edge {lo[0]}, high edge {hi[0]} -> {kw!r})'
+                    v = as_ms(R, R.call(ig.bandlimited_rms, r, P, **kw), 'bandlimited_rms:output', what)
+                    if v is None:
+                        continue
+                    V[(i, j)] = v
+                    O, C, Er = sums(lo[2], hi[2])
+                    R.expect(O - Er - tol <= v <= C + Er + tol, f'bandlimited_rms:edge-value:{iface}:{lo[1]}-{hi[1]}',
+                             f'{what}: rms^2={v!r}; integral over the open band {O!r}, over the closed band {C!r}, ring weight {Er!r}, whole map {MS!r}')
+                    # the method inherits the function
+                    if pr is not None and case['method']:
+                        vm = as_ms(R, R.call(itf.bandlimited_rms, **kw), 'Interferogram.bandlimited_rms:output', what)
+                        vf = as_ms(R, R.call(ig.bandlimited_rms, pr, pd, hygiene=False, **kw), 'bandlimited_rms:output', what + ' on the method\'s PSD')
+                        if vm is not None and vf is not None:
+                            R.expect(abs(vm - vf) <= 8 * EPS * max(vm, vf), 'Interferogram.bandlimited_rms:wiring', f'Interferogram.{what}: {vm!r} vs function on psd() {vf!r}')
+            keys = sorted(V)
+            if not keys:
+                continue
+            lo_v = np.array([E[i][2] for i, _ in keys])
+            hi_v = np.array([E[j][2] for _, j in keys])
+            vv = np.array([V[k_] for k_ in keys])
+            # widening never decreases; equal bands in different forms (0 / 0.0 / None, r.max() / above / None) agree
+            nested = (lo_v[:, None] >= lo_v[None, :]) & (hi_v[:, None] <= hi_v[None, :])
+            # an edge that ties with samples may be read open or closed: allow the tied weight
+            slack = np.array([tie_weight(a) + tie_weight(b) for a, b in zip(lo_v, hi_v)])
+            viol = nested & (vv[:, None] > vv[None, :] + tol + slack[:, None] * ((lo_v[:, None] == lo_v[None, :]) | (hi_v[:, None] == hi_v[None, :])))
+            R.checks += int(nested.sum())
+            if viol.any():
+                a_, b_ = np.argwhere(viol)[0]
+                ka, kb = keys[a_], keys[b_]
+                R.violation(f'bandlimited_rms:edge-value:monotone:{iface}',
+                            f'{n0}x{n1} dx={dx} window={wname}: band [{E[ka[0]][0]}, {E[ka[1]][0]}] rms^2={vv[a_]!r} exceeds the wider-or-equal band '
+                            f'[{E[kb[0]][0]}, {E[kb[1]][0]}] rms^2={vv[b_]!r}')
+            # adjacent bands add in quadrature (up to the weight of samples tied with the common edge)
+            for (i, j) in keys:
+                for k_ in range(len(E)):
+                    if (j, k_) in V and (i, k_) in V and E[j][5] and E[j][6]:
+                        d = V[(i, j)] + V[(j, k_)] - V[(i, k_)]
+                        T = tie_weight(E[j][2])
+                        R.checks += 1
+                        if abs(d) > T + tol:
+                            R.violation(f'bandlimited_rms:edge-value:additivity:{iface}',
+                                        f'{n0}x{n1} dx={dx} window={wname}: rms[{E[i][0]},{E[j][0]}]^2 + rms[{E[j][0]},{E[k_][0]}]^2 - rms[{E[i][0]},{E[k_][0]}]^2 = {d!r}, '
+                                        f'weight of the samples on the common edge {T!r}')
+        R.nontrivial(MS > 0)
+        R.outcome('edge-values')
+    finally:
+        prune(R)
+
+
+# ---------------------------------------------------------------------------------------------
 # argument forms of the band edges (Python / numpy scalars of integer and floating type, 0-d arrays)
 
 FORMS = ('float', 'int', 'np.float64', 'np.float32', 'np.int64', 'array0d', 'array0d-int')
@@ -1171,6 +1296,9 @@ def plan(tier, seed):
                   for (a, b) in shapes for dx in dxs for w in ('user-ones', 'hann', 'welch') for mp in ('const', 'sin', 'dense')]
     band_cases += [{'n0': a, 'n1': b, 'dx': dx, 'window': w, 'map': mp}
                    for (a, b) in shapes for dx in xdx for w in ('user-ones', 'welch') for mp in ('const', 'dense')]
+    ev_shapes = [(4, 4), (5, 5), (4, 7), (7, 6), (8, 8)] + ([] if quick else [(3, 3), (9, 11), (12, 12), (16, 15)])
+    ev_cases = [{'n0': a, 'n1': b, 'dx': dx, 'window': w, 'method': w == 'user-ones'}
+                for (a, b) in ev_shapes for dx in (1.0, 0.25) + (() if quick else (3e7,)) for w in ('user-ones', 'welch')]
     form_shapes = [(9, 9), (8, 9), (12, 10)] + ([] if quick else [(11, 8), (16, 16), (15, 13)])
     form_cases = [{'n0': a, 'n1': b, 'kind': kind, 'form': form, 'target': tg}
                   for (a, b) in form_shapes for kind in ('period', 'frequency') for tg in ('function', 'method') for form in FORMS]
@@ -1208,6 +1336,12 @@ def plan(tier, seed):
                   'distinct sample radii, and the open upper end; EVERY pair of edges as frequencies (flow/fhigh, incl. one-sided) and as periods (wllow/wlhigh, incl. '
                   'one-sided); every ordered triple for additivity; neighbours for monotonicity; every band against the reference integral within the ring weight; '
                   'period form == frequency form', reset=rs, chunk=8),
+        ScopeUnit('edge_values', ev_cases, run_edge_values,
+                  f'shapes {ev_shapes} x dx x window {{ones, welch}}, dense map with non-zero mean: band-edge VALUE alphabet {{0 as int / float / np.float64 / None; exactly on a frequency '
+                  'bin (first ring, a middle ring, the end of the shorter axis); between bins; r.max(); 1.5 r.max(); 1e9; inf; None}} -- every ordered pair low <= high including low == high, '
+                  'as frequencies and as the corresponding periods (1/f, inf for 0, None); each band against the reference integral (open band - ring <= rms^2 <= closed band + ring, so either '
+                  'reading of a tie is accepted), widening never decreases, equal bands in different forms agree, adjacent bands add in quadrature up to the samples tied with the common edge; '
+                  'Interferogram.bandlimited_rms == function on its own PSD for every pair.  A zero period is outside the domain', reset=rs),
         ScopeUnit('edge_forms', form_cases, run_forms,
                   f'shapes {form_shapes} x {{periods 2,4,5,20 at dx=1.1; frequencies 2,8,10,20 at dx=1.1/40 (same geometry)}} x {{bandlimited_rms, Interferogram.bandlimited_rms}} x '
                   f'argument form {list(FORMS)}: every two-sided and one-sided band over the four integer-valued edges (all strictly between sample radii), the form applied to '
